@@ -19,7 +19,7 @@ Q_Prefixes == { <<>>,
                 <<"goakt", ":", "/", "/", "a", "@", "a", ":">>,
                 <<"goakt", ":", "/", "/", "a", "@", "a", ":", "1", "/">>,
                 <<"goakt", ":", "/", "/", "a", "@", ":", ":">> }
-Q_Alphabet == {"a", "1", ":", "/", "@", "+", "-", "goakt"}
+Q_Alphabet == {"a", "1", ":", "/", "@", "+", "goakt"}
 
 T_Systems == Q_Systems \cup {W("S")}
 T_Names   == Q_Names \cup {W("A"), W("x.y")}
@@ -29,5 +29,5 @@ T_Hosts   == Q_Hosts \cup { W("HOST"), W("a_b"), W("10.0.0.12"), <<"1", ":", ":"
 T_HostAlpha == {":", "a", "1", "."}
 T_Prefixes == Q_Prefixes \cup { <<"go", "akt", ":", "/", "/">>, <<"http", ":", "/", "/">>,
                                 <<"goakt", ":", "/", "/", "a", "@", "a", ":", "2147483648">> }
-T_Alphabet == Q_Alphabet \cup {"0", "2147483648", "."}
+T_Alphabet == Q_Alphabet \cup {"-"}
 ====
